@@ -52,9 +52,9 @@ def run(ctx):
 
     # 3. replay on the real queue; 4. validate by TLC
     traces = []
-    for test, need_in in (("TestC15Seq", True), ("TestC15Forced", False), ("TestC15Stress", False)):
+    for test, need_in in (("TestC15Seq", True), ("TestC15Forced", False), ("TestC15Stress", False), ("TestC15Node", False)):
         outp = os.path.join(ctx.work, test + ".ndjson")
-        env = {"VERIF_OUT": outp}
+        env = {"VERIF_OUT": outp, "VERIF_SINK": os.path.join(ctx.work, test + ".sink.ndjson")}
         if need_in:
             env["VERIF_IN"] = scn_file
         r = vlib.run_go(ctx, "./drivers/c15/", "^%s$" % test, env=env, timeout=1500)
@@ -110,4 +110,5 @@ def run(ctx):
     return vlib.finish(ctx, LEVEL, cov, [
         "sync.Mutex / sync.Cond / context.AfterFunc behave as modelled (Wait atomically enqueues and unlocks; Signal wakes one waiter)",
         "forced interleaving relies on 2 ms of real time for the AfterFunc goroutine to run while Pop is parked",
-        "stress histories sample the runtime's schedules; the model covers all of them"])
+        "stress histories sample the runtime's schedules; the model covers all of them",
+        "in-node part (TestC15Node): pushes are taken from the library's SendRPC/DropRPC trace calls at the push site, pops from frame arrival at a fake peer; pop k is assumed called after pop k-1 returned (the writer loop is sequential)"])
